@@ -84,6 +84,26 @@ CHECKS = [
         "length 0/1/2, non-ASCII / escaped / surrogate code points, sets: accepted iff compliant, stored value exact, rejection is InvalidDefinitionError.",
         "note": "trusted: the compliance predicate expected() in c12.py; initializer alphabet is finite per type",
     },
+    {
+        "property_id": "C16",
+        "level": "exploration",
+        "design_ref": "DESIGN.md 4/C16",
+        "technique": "exhaustive enumeration of capacity/extent exponents over a template family under a deterministic step counter (sys.monitoring) with invariants: no numerical expansion, no residue set larger than the divisor, step count bounded independent of the exponent",
+        "text": "20 definition templates x every capacity/extent 2**e, e=1..63 (thorough also 2**e+-1) x every operation the property lists; cost is "
+        "measured in deterministic Python-level loop iterations inside pydsdl, not seconds. The pre-repair tree violates the step budget on 7 templates "
+        "already at capacities 8..32 (see known_findings.txt).",
+        "note": "a cost property decided on an enumerated family: shows boundedness there, not an asymptotic theorem; C-level iterators are covered by a CPU-time backstop only",
+    },
+    {
+        "property_id": "C18",
+        "level": "exploration",
+        "design_ref": "DESIGN.md 4/C18",
+        "technique": "exhaustive all-ordered-pairs comparison over a catalogue of independently built model objects; reflection over list-returning accessors; pickle round trip",
+        "text": "Every ordered pair of a ~530-entry catalogue (types, attributes, expression values, bit length set trees incl. differently built equal sets) "
+        "is compared for symmetry, hash consistency and the required (in)equalities; every public list-returning accessor found by reflection is mutated; "
+        "every object is pickled and compared by deep dump.",
+        "note": "trusted: mc/dump.py deep dump, ref/bls.py and ref/layout.py for set equality; catalogue is finite",
+    },
 ]
 
 _TODO = "check not built yet in this round (see DESIGN.md 9, implementation order)"
